@@ -85,8 +85,10 @@ def check(c):
         variant = render.render(sc, to_layout(lay))
     except render.RenderError as e:
         raise HarnessError(str(e))
-    if _sig(canonical) != _sig(variant):
-        raise HarnessError("layout transformer changed the token sequence:\n%r\n%r" % (canonical, variant))
+    # self-check of the transformer: under the grammar both texts have the same tokens apart from NEWLINE.
+    # (If it fails, the layout edits are NOT insignificant under the current blackbird.g4 -- on the unchanged
+    # tree this never happens; the behavioural comparison below then decides.)
+    lexical_change = _sig(canonical) != _sig(variant)
     p0, e0 = K.safe_loads(canonical)
     if e0 is not None:
         return Outcome(discard="canonical-load-failed:" + type(e0).__name__)
@@ -110,7 +112,8 @@ def check(c):
         edits.add("mixed-indent")
     if not lay["final_newline"]:
         edits.add("no-final-newline")
-    out = Outcome(key=variant, classes=sorted(edits), sample={"variant": variant, "canonical": canonical})
+    out = Outcome(key=variant, classes=sorted(edits) + (["grammar-tokenises-variant-differently"] if lexical_change else []),
+                  sample={"variant": variant, "canonical": canonical})
     out.nontrivial = len(edits) >= 3 and bool(feats & {"array", "loop"})
     p1, e1 = K.safe_loads(variant)
     ctx = "variant text: %r\ncanonical text:\n%s" % (variant, canonical)
